@@ -5,7 +5,7 @@ from .solcommon import *
 def run(tier, seed, replay=None):
     rep = Report("C04", tier, seed)
     sun_selfcheck(rep)
-    args = ["--stride", 3] if tier == "thorough" else ["--years", 40, "--random", 2500]
+    args = ["--stride", 2] if tier == "thorough" else ["--years", 40, "--random", 2500]
     info, events = validate(rep, "C04", "c04", args, heap="10g" if tier == "thorough" else "6g")
     rep.distinct_nontrivial = len({(e["site"]["lat"], e["site"]["lon"], e["date"]["dn"], e["p"]["sch"]) for e in events
                                    if e["ev"] == "c04" and e["r"]["t"][4] >= 0})
